@@ -360,6 +360,22 @@ pub fn judge_rebuild(t: &Truth, src: &Path, dst: &Path, o: &Opt, victim: Option<
                 if n_keep == n_user && t.has_listfile && (!files.source_only.is_empty() || !files.target_only.is_empty()) {
                     r.count("compare_reports_set_difference_on_full_rebuild", 1);
                 }
+                // a complete rebuild of a source that carries a listfile: the comparison must not report a listed
+                // USER file of the source as missing from the target (special files may legitimately differ)
+                if faithful && n_keep == n_user && t.has_listfile {
+                    let special = |n: &str| n.starts_with('(') && n.ends_with(')');
+                    // names are compared modulo ASCII case and slash direction: the rebuilt listing may spell a name
+                    // differently, which shows up as one source-only and one target-only entry
+                    let fold = |n: &str| n.to_ascii_uppercase().replace('/', "\\");
+                    let there: std::collections::BTreeSet<String> = files.target_only.iter().map(|n| fold(&n.to_string())).collect();
+                    let missing: Vec<String> = files.source_only.iter().map(|n| n.to_string()).filter(|n| !special(n) && !there.contains(&fold(n))).collect();
+                    if !missing.is_empty() {
+                        r.viol(
+                            format!("compare_archives reports listed source files as missing from a rebuilt target that holds every one of them bit-identical [{} source]", t.src_class()),
+                            format!("{mode}: {} names, first {:?} (the target's own listing no longer names them)", missing.len(), missing.first()),
+                        );
+                    }
+                }
                 if c.identical {
                     r.count("compare_identical", 1);
                 }
